@@ -228,6 +228,9 @@ def h_call(g: int, n: int, a: int, b: int, c: int, perm: int) -> bool:
     _CUR["mol"] = mol
     roles = [a, b, c]
     idx = [roles[i] for i in PERMS[perm]]
+    # the query reports as many atoms as the group's pattern has: phenol / ketone are C-O pairs
+    if name in ("phenol", "ketone"):
+        idx = [i for i in idx if i != a]
     st = MoleculeStandardizer.__new__(MoleculeStandardizer)
     st.query = _Query(name, idx)
     outs = []
